@@ -120,7 +120,7 @@ PROPS = {
     ),
     "C21": dict(
         verus=["tokenizer", "showtext"],
-        standins=["fmt"],
+        standins=["fmt", "content"],
         kani=[K("c21_finite_or_zero_all_f64", "graphics/color.rs", "finite_or_zero")],
         not_decided="numeric operands and formatting, operator vocabulary dispatch, marked-content property lists, TJ arrays",
     ),
